@@ -15,7 +15,7 @@ ANCHORS = ['mpilot/libraries/eems/fuzzy.py:FuzzyOr.execute', 'mpilot/libraries/e
 LEVEL = "exploration"
 RULE = ("operator x parameter x input-order x layout cases; n<=3 inputs enumerate the complete 18^n value/missing lattice as "
         "array cells (rank 2-3 shapes also with inputs in Fortran-order / strided / negative-stride memory), n=4,5 sample cell tuples; a case is distinct by (operator, n, params, layout rank, order class)")
-REQUIRED_COUNTERS = ["direct_execute_calls", "command_object_input_calls", "ref_postconditions", "law_checks", "cells_compared", "repeated_field_cases", "mixed_dtype_cases", "saturated_field_cases", "memory_layout_cases", "plain_ndarray_cases", "large_rasters_checked", "real_producer_cases", "program_copies_checked"]
+REQUIRED_COUNTERS = ["category_producer_cases", "direct_execute_calls", "command_object_input_calls", "ref_postconditions", "law_checks", "cells_compared", "repeated_field_cases", "mixed_dtype_cases", "saturated_field_cases", "memory_layout_cases", "plain_ndarray_cases", "large_rasters_checked", "real_producer_cases", "program_copies_checked"]
 EXHAUSTIVE_NOTE = "complete {17 fuzzy values + missing}^n lattice for n = 1, 2, 3 in both tiers"
 ASSUMPTIONS = ["reference models in mpv/ref.py (exact rationals) are the EEMS definitions as stated in the property",
                "numpy masked-array primitives are trusted", "FuzzyXOr with one input, k outside 1..n and zero weight sums are don't-care"]
@@ -144,6 +144,18 @@ def cases(ctx):
         ps = param_sets(rng, op, n, ctx.quick)
         yield {"kind": "sampled", "n": n, "op": op, "params": rng.choice(ps), "shape": [200], "order": list(range(n)), "count": 200, "rseed": rng.randrange(10 ** 9),
                "real_producers": True, "in_copy": rng.random() < 0.5}
+    # one of the fields has no valid cell at all; and crisp fields made by CvtToFuzzyCat from whole-number fuzzy values
+    for r in range(ctx.n(30, 1500)):
+        n = rng.choice([1, 2, 3])
+        op = rng.choice([o for o in OPS if (o == "FuzzyNot") == (n == 1) or (n == 1 and o in ("FuzzyOr", "FuzzyAnd", "FuzzyUnion"))])
+        if op == "FuzzyXOr" and n < 2:
+            op = "FuzzyOr"
+        ps = param_sets(rng, op, n, ctx.quick)
+        yield {"kind": "sampled", "n": n, "op": op, "params": rng.choice(ps), "shape": [60], "order": list(range(n)), "count": 60, "rseed": rng.randrange(10 ** 9), "all_missing": rng.randrange(n)}
+        n2 = rng.choice([1, 2, 3])
+        op2 = rng.choice([o for o in OPS if o != "FuzzyNot" and (n2 > 1 or o != "FuzzyXOr")])
+        yield {"kind": "sampled", "n": n2, "op": op2, "params": rng.choice(param_sets(rng, op2, n2, ctx.quick)), "shape": [60], "order": list(range(n2)), "count": 60, "rseed": rng.randrange(10 ** 9),
+               "real_producers": True, "in_copy": False, "cat_producers": True}
     # sampled n = 4, 5
     reps = ctx.n(24, 400)
     count = 1500 if ctx.quick else 20000
@@ -182,6 +194,10 @@ def _columns(case):
         cols = sampled_columns(random.Random(case["rseed"]), case["n"], case["count"])
         if case.get("saturate") is not None:
             cols[case["saturate_pos"]] = [case["saturate"]] * case["count"]
+        if case.get("all_missing") is not None:
+            cols[case["all_missing"]] = [None] * case["count"]         # a field without a single valid cell
+        if case.get("cat_producers"):
+            cols = [[None if v is None else (1.0 if v > 0 else 0.0) for v in c] for c in cols]      # crisp: undetermined / fully true
         for k, dt in enumerate(case.get("dtypes") or []):
             if dt.startswith("int"):     # crisp fields: fully false / undetermined / fully true
                 cols[k] = [None if v is None else float(round(v)) for v in cols[k]]
@@ -377,12 +393,33 @@ def _run_real(ctx, case, op, n, params, cols, inputs, shape):
     d = ctx.scratch() if write else None
     prog = arr.new_program(arr.NC_LIBS if write else arr.CSV_LIBS, working_dir=d)
     ctx.count("real_producer_cases")
+    cat = bool(case.get("cat_producers"))
+    if cat:
+        write = False
+        ctx.count("category_producer_cases")
     for k, a in enumerate(inputs):
+        if cat:
+            # the field is made by CvtToFuzzyCat from category codes, its fuzzy values written as whole numbers
+            arr.standin(prog, "S%d" % k, numpy.ma.array(numpy.where(numpy.ma.getdata(a) > 0, 7, 3).astype("int64"), mask=numpy.ma.getmaskarray(a).copy()), fuzzy=False)
+            prog.add_command(prog.find_command_class("CvtToFuzzyCat"), "P%d" % k, {"InFieldName": "S%d" % k, "RawValues": [7, 3], "FuzzyValues": [1, 0], "DefaultFuzzyValue": 0})
+            continue
         arr.standin(prog, "S%d" % k, -a, fuzzy=True)
         prog.add_command(prog.find_command_class("FuzzyNot"), "P%d" % k, {"InFieldName": "S%d" % k})
     prog.add_command(prog.find_command_class(op), "Res", dict(params, InFieldNames=["P%d" % k for k in range(n)]))
     runs = [(prog, cols, "")]
-    if not case.get("in_copy") and not write and case["rseed"] % 3 == 1:
+    if cat:
+        # Not of every such field is its negation
+        for k in range(n):
+            neg = arr.invoke(prog, "FuzzyNot", "NotP%d" % k, {"InFieldName": "P%d" % k})
+            ctx.count("law_checks")
+            if not neg.ok:
+                ctx.fail("FuzzyNot:raises-%s:field-made-by-CvtToFuzzyCat" % (neg.inner() or neg.err), {"error": repr(neg.exc)[:200]})
+                return
+            bad = ref.compare(neg.value, [None if v is None else Fraction(-v) for v in cols[k]], rel=1e-12)
+            if bad:
+                ctx.fail("FuzzyNot:%s:field-made-by-CvtToFuzzyCat-from-whole-numbers" % bad[0], {"cell": bad[1], "got": bad[2], "want": bad[3], "dtype": str(prog.commands["P%d" % k]._result.dtype)})
+                return
+    if not cat and not case.get("in_copy") and not write and case["rseed"] % 3 == 1:
         # before anything is evaluated the caller swaps other source fields in under the same names: the program computes from
         # the fields it holds when it is run
         ctx.count("source_fields_replaced_before_the_run")
